@@ -3,6 +3,7 @@
 //! Usage: nsverif <mode> [args...]
 
 mod bump;
+mod capture;
 mod f64ops;
 mod frontend;
 mod lang;
@@ -28,6 +29,7 @@ fn main() -> ExitCode {
             ExitCode::SUCCESS
         }
         "bump" => bump::run(&args[2], &args[3]),
+        "capture" => capture::run(&args[2], &args[3]),
         "f64" => f64ops::run(&args[2], &args[3]),
         "lang" => lang::run(&args[2..]),
         "layout" => layout::run(&args[2..]),
